@@ -139,12 +139,27 @@ func canBind(udp bool, port int) bool {
 
 // hbFrame: a valid v2 heartbeat frame from (sys, comp)
 func hbFrameBytes(sys, comp byte, seq byte, autopilot common.MAV_AUTOPILOT) []byte {
+	return hbFrameBytesV(sys, comp, seq, autopilot, 0)
+}
+
+// hbFrameBytesV: the other fields of the heartbeat (vehicle type, base mode, custom mode, system status, protocol version) take
+// values derived from `variant` (0: the usual ones): none of them has any bearing on heartbeats or stream requests.
+func hbFrameBytesV(sys, comp byte, seq byte, autopilot common.MAV_AUTOPILOT, variant int) []byte {
+	hb := &common.MessageHeartbeat{Type: 1, Autopilot: autopilot, SystemStatus: 4, MavlinkVersion: 3}
+	if variant != 0 {
+		v := uint32(variant) * 2654435761
+		hb.Type = common.MAV_TYPE(v % 44)
+		hb.BaseMode = common.MAV_MODE_FLAG((v >> 8) & 0xFF)
+		hb.CustomMode = v
+		hb.SystemStatus = common.MAV_STATE((v >> 16) % 9) // UNINIT, BOOT, CALIBRATING, STANDBY, ACTIVE, CRITICAL, EMERGENCY, POWEROFF, FLIGHT_TERMINATION
+		hb.MavlinkVersion = uint8(v >> 24)
+	}
 	var buf strings.Builder
 	w := &frame.Writer{ByteWriter: &sbWriter{&buf}, DialectRW: getDialectRW("common"), OutVersion: frame.V2, OutSystemID: sys, OutComponentID: comp}
 	if err := w.Initialize(); err != nil {
 		panic(err)
 	}
-	if err := w.WriteMessage(&common.MessageHeartbeat{Type: 1, Autopilot: autopilot, SystemStatus: 4, MavlinkVersion: 3}); err != nil {
+	if err := w.WriteMessage(hb); err != nil {
 		panic(err)
 	}
 	b := []byte(buf.String())
